@@ -1,6 +1,7 @@
 package sim
 
 import (
+	"github.com/apache/yunikorn-core/pkg/common/security"
 	"strings"
 
 	"github.com/apache/yunikorn-core/pkg/common/configs"
@@ -305,6 +306,44 @@ func (s *Sim) oracleC17(op Op, evs []SIEvent) {
 		}
 		if a.RejectMsg == "" {
 			s.violate("C17", "rejected-without-reason", "", "application %s was rejected without a reason", a.ID)
+		}
+	}
+}
+
+// adminAllowed: the admin ACL of the queue or of an ancestor admits the user.
+func (s *Sim) adminAllowed(path string, user string, groups []string) bool {
+	for _, qp := range ancestors(path) {
+		if q := s.conf.Find(qp); q != nil && aclAllows(q.AdminACL, user, groups) {
+			return true
+		}
+	}
+	return false
+}
+
+// checkACLState: the access every configured queue gives every user of the world is the access the active
+// configuration describes (asked through the exported access checks of the queue objects). Called after the
+// registration and after every accepted reload.
+func (s *Sim) checkACLState(when string) {
+	pc := s.sc.Scheduler.GetClusterContext().GetPartition(s.part)
+	if pc == nil {
+		return
+	}
+	for _, path := range s.conf.allQueues() {
+		q := pc.GetQueue(path)
+		if q == nil {
+			continue
+		}
+		for _, u := range s.world.Users {
+			ug := security.UserGroup{User: u.Name, Groups: u.Groups}
+			s.probe("acl_state_checked")
+			if got, want := q.CheckSubmitAccess(ug), s.submitAllowed(path, u.Name, u.Groups); got != want {
+				s.violate("C17", "acl-not-as-configured", "submit-"+when, "queue %s gives user %s (groups %v) submit access=%v, the active configuration says %v", path, u.Name, u.Groups, got, want)
+				return
+			}
+			if got, want := q.CheckAdminAccess(ug), s.adminAllowed(path, u.Name, u.Groups); got != want {
+				s.violate("C17", "acl-not-as-configured", "admin-"+when, "queue %s gives user %s (groups %v) admin access=%v, the active configuration says %v", path, u.Name, u.Groups, got, want)
+				return
+			}
 		}
 	}
 }
